@@ -178,6 +178,10 @@ def run(ck, F, tier):
     # "every successfully decoded picture EXPOSES planes": after a successful call get_last_picture() returns the picture just decoded - the accessor reads the
     # store under last_picture (C04 R1), last_picture := this picture's key and the picture is inserted under it (R2), and the clean-up that prunes the store
     # runs after those updates (R7)
+    # "every width and height from 1 upward .. completes": the reconstruction writes each block only inside the plane - the cropped extents of all four
+    # idct_channel arms (C10's rule C: x < min(8, row length - 8bx), y < min(8, rows - 8by), with the transposed dense arm cropped the right way round)
+    from . import c10
+    c10.rule_c(Scoped(ck, 'C10.'), F)
     from . import c04
     s04 = Scoped(ck, 'C04.')
     c04.r1_accessors(s04, F)
